@@ -871,12 +871,13 @@ class SyncGroup(SyncGroupBase):
     def update_devices(self, data):
         self.current_data[:] = data
         for pos, counts in self.packet.counters.items():
-            if data[pos] != counts:
+            wkc, = unpack_from("<H", data, pos)  # it is a 16 bit counter
+            if wkc != counts:
                 logging.warning(
                     'EtherCAT datagram "%s" processed %i times, should be %i',
-                    self.name, data[pos], counts)
+                    self.name, wkc, counts)
                 self.wkc_errors += 1
-            self.current_data[pos] = 0
+            self.current_data[pos:pos + 2] = b"\0\0"
         for dev in self.devices:
             dev.update()
         return self.current_data
